@@ -62,6 +62,26 @@ case: ifP => _.
 Qed.
 End Giv.
 
+(* ------------------------------------------------------------ one chase step is an orthogonal similarity *)
+Section Sim.
+Variable F : rcfType.
+Notation O := (OpsF F).
+(* the 4x4 window of the symmetric matrix around the planes (k, k+1): rows/columns k-1, k, k+1, k+2, with the bulge z at
+   (k-1, k+1); as a quadratic form *)
+Definition qform (a x z dk sk dk1 e0 e f : F) (v0 v1 v2 v3 : F) : F :=
+  a * v0 ^+ 2 + 2%:R * x * v0 * v1 + 2%:R * z * v0 * v2 + dk * v1 ^+ 2 + 2%:R * sk * v1 * v2 + dk1 * v2 ^+ 2
+  + 2%:R * e0 * v1 * v3 + 2%:R * e * v2 * v3 + f * v3 ^+ 2.
+
+(* what one iteration of the chase writes (new diag[k], diag[k+1], subdiag[k], subdiag[k-1], the new bulge -s e and subdiag[k+1] = c e)
+   are exactly the entries of G^T T G for the plane rotation G = [c s; -s c] that the eigenvector matrix is multiplied by,
+   and the entry (k-1, k+1) of G^T T G is s x + c z - which make_givens makes zero (make_givens_spec) *)
+Theorem chase_step_similarity (c s a x z dk sk dk1 e f : F) (u0 u1 u2 u3 : F) :
+  let '(ndk, ndk1, nsk) := rot_update O c s dk dk1 sk in
+  qform a (c * x - s * z) (s * x + c * z) ndk nsk ndk1 (- s * e) (c * e) f u0 u1 u2 u3 =
+  qform a x z dk sk dk1 0 e f u0 (c * u1 + s * u2) (- s * u1 + c * u2) u3.
+Proof. by rewrite /rot_update /qform /=; ring. Qed.
+End Sim.
+
 (* ------------------------------------------------------------ value conventions *)
 Section Conv.
 Variable o : Ops.
